@@ -6,6 +6,8 @@ Import ListNotations.
 Local Open Scope Z_scope.
 
 (* ================================================================== vectors, positioned sites *)
+Lemma vec_ext (a0 a1 a2 b0 b1 b2 : Z) : a0 = b0 -> a1 = b1 -> a2 = b2 -> (a0, a1, a2) = (b0, b1, b2).
+Proof. intros -> -> ->. reflexivity. Qed.
 Lemma veqb_eq a b : veqb a b = true <-> a = b.
 Proof.
   destruct a as [[a0 a1] a2], b as [[b0 b1] b2]. unfold veqb. split; intro H.
@@ -58,14 +60,14 @@ Qed.
 Lemma shift_shift T T' p : shift T' (shift T p) = shift (vadd T T') p.
 Proof.
   destruct p as [s [[x y] z]], T as [[t0 t1] t2], T' as [[u0 u1] u2]. unfold shift, vadd. cbn [p_site p_R].
-  f_equal. f_equal; [f_equal|]; lia.
+  f_equal. apply vec_ext; lia.
 Qed.
 
 Lemma shift_zero p : shift vzero p = p.
-Proof. destruct p as [s [[x y] z]]. unfold shift, vadd, vzero. cbn [p_site p_R]. f_equal. f_equal; [f_equal|]; lia. Qed.
+Proof. destruct p as [s [[x y] z]]. unfold shift, vadd, vzero. cbn [p_site p_R]. f_equal. apply vec_ext; lia. Qed.
 
 Lemma vadd_neg T : vadd T (vneg T) = vzero.
-Proof. destruct T as [[a b] c]. unfold vadd, vneg, vzero. f_equal; [f_equal|]; lia. Qed.
+Proof. destruct T as [[a b] c]. unfold vadd, vneg, vzero. apply vec_ext; lia. Qed.
 
 Lemma shift_inj T p q : shift T p = shift T q -> p = q.
 Proof.
@@ -149,7 +151,7 @@ Proof.
   unfold canon. rewrite psort_shift. destruct (psort l) as [|h t]; [reflexivity|].
   assert (EV : vadd T (vneg (p_R (shift T h))) = vneg (p_R h)).
   { destruct h as [s [[x y] z]], T as [[t0 t1] t2]. unfold shift, vadd, vneg. cbn [p_site p_R].
-    f_equal; [f_equal|]; lia. }
+    apply vec_ext; lia. }
   cbn [map]. rewrite shift_shift, map_shift_shift, EV. reflexivity.
 Qed.
 
@@ -221,21 +223,21 @@ Variable ge : geom.
 Lemma dvec_neg s0 s1 R : dvec ge s1 s0 (vneg R) = vneg (dvec ge s0 s1 R).
 Proof.
   unfold dvec. destruct (Uof ge s0) as [[a0 a1] a2], (Uof ge s1) as [[b0 b1] b2], R as [[x y] z].
-  unfold vadd, vscale, vsub, vneg. f_equal; [f_equal|]; ring.
+  unfold vadd, vscale, vsub, vneg. apply vec_ext; ring.
 Qed.
 
 Lemma nbrb_sym s0 s1 R : nbrb ge s1 s0 (vneg R) = nbrb ge s0 s1 R.
 Proof. unfold nbrb, d2. rewrite dvec_neg, quad_neg. reflexivity. Qed.
 
 Lemma vsub_neg a b : vsub a b = vneg (vsub b a).
-Proof. destruct a as [[a0 a1] a2], b as [[b0 b1] b2]. unfold vsub, vneg. f_equal; [f_equal|]; lia. Qed.
+Proof. destruct a as [[a0 a1] a2], b as [[b0 b1] b2]. unfold vsub, vneg. apply vec_ext; lia. Qed.
 
 Lemma nbr_sym p q : nbr ge p q -> nbr ge q p.
 Proof. unfold nbr. intro H. rewrite vsub_neg, nbrb_sym. exact H. Qed.
 
 Lemma vsub_shift T a b : vsub (vadd a T) (vadd b T) = vsub a b.
 Proof.
-  destruct a as [[a0 a1] a2], b as [[b0 b1] b2], T as [[t0 t1] t2]. unfold vsub, vadd. f_equal; [f_equal|]; lia.
+  destruct a as [[a0 a1] a2], b as [[b0 b1] b2], T as [[t0 t1] t2]. unfold vsub, vadd. apply vec_ext; lia.
 Qed.
 
 Lemma nbr_shift T p q : nbr ge (shift T p) (shift T q) <-> nbr ge p q.
@@ -406,7 +408,7 @@ Proof.
 Qed.
 
 Lemma vsub_zero a : vsub a vzero = a.
-Proof. destruct a as [[a0 a1] a2]. unfold vsub, vzero. f_equal; [f_equal|]; lia. Qed.
+Proof. destruct a as [[a0 a1] a2]. unfold vsub, vzero. apply vec_ext; lia. Qed.
 
 (* ---- completeness: every clique is enumerated (as its canonical form) when the box suffices ---- *)
 Theorem enum_complete :
@@ -469,3 +471,513 @@ Proof.
 Qed.
 
 End GeomProofs.
+
+(* ================================================================== Part 2: range certificates *)
+Lemma quad_add a b v : quad (six_add a b) v = quad a v + quad b v.
+Proof.
+  destruct a as [[[[[a1 a2] a3] a4] a5] a6], b as [[[[[b1 b2] b3] b4] b5] b6], v as [[x y] z].
+  unfold quad, six_add. ring.
+Qed.
+
+Lemma quad_scale k a v : quad (six_scale k a) v = k * quad a v.
+Proof. destruct a as [[[[[a1 a2] a3] a4] a5] a6], v as [[x y] z]. unfold quad, six_scale. ring. Qed.
+
+Lemma six_eqb_eq a b : six_eqb a b = true -> a = b.
+Proof.
+  destruct a as [[[[[a1 a2] a3] a4] a5] a6], b as [[[[[b1 b2] b3] b4] b5] b6]. unfold six_eqb. intro H.
+  assert (a1 = b1 /\ a2 = b2 /\ a3 = b3 /\ a4 = b4 /\ a5 = b5 /\ a6 = b6) as (-> & -> & -> & -> & -> & ->) by lia.
+  reflexivity.
+Qed.
+
+Lemma quad_sq w l v : quad (sq_form w l) v = w * (vdot l v * vdot l v).
+Proof. destruct l as [[a b] c], v as [[x y] z]. unfold quad, sq_form, vdot. ring. Qed.
+
+Lemma quad_unit i c v : quad (unit_form i c) v = c * (coord i v * coord i v).
+Proof. destruct v as [[x y] z]. destruct i as [|[|i]]; unfold quad, unit_form, coord; ring. Qed.
+
+Lemma quad_terms_nonneg ts v : forallb (fun t => Z.leb 0 (fst t)) ts = true -> 0 <= quad (terms_form ts) v.
+Proof.
+  induction ts as [|[w l] ts IH]; cbn [terms_form fold_right forallb fst snd]; intro H.
+  - destruct v as [[x y] z]. unfold quad. lia.
+  - apply andb_true_iff in H. destruct H as [H1 H2]. fold (terms_form ts). rewrite quad_add, quad_sq.
+    specialize (IH H2). assert (0 <= w) by lia. pose proof (Z.square_nonneg (vdot l v)). nia.
+Qed.
+
+Section RangeProofs.
+Variable ge : geom.
+
+Lemma rcert_bound w i ct x :
+  0 < g_r2d ge -> rcert_okb ge w i ct = true ->
+  quad (g_G ge) x * g_r2d ge < g_r2n ge * g_sg ge * g_D ge * g_D ge ->
+  Z.abs (coord i x) <= rc_B ct.
+Proof.
+  intros Hd H Hq. unfold rcert_okb in H.
+  repeat (apply andb_true_iff in H; destruct H as [H ?]).
+  assert (Hs : 0 < rc_s ct) by lia. assert (Hc : 0 < rc_c ct) by lia. assert (HB : 0 <= rc_B ct) by lia.
+  match goal with E : six_eqb _ _ = true |- _ => apply six_eqb_eq in E; rename E into E6 end.
+  assert (Eq : rc_s ct * quad (g_G ge) x = rc_c ct * (coord i x * coord i x) + quad (terms_form (rc_terms ct)) x).
+  { rewrite <- quad_scale, E6, quad_add, quad_unit. reflexivity. }
+  assert (Hn : 0 <= quad (terms_form (rc_terms ct)) x) by (apply quad_terms_nonneg; assumption).
+  match goal with E : Z.leb (rc_s ct * _) _ = true |- _ => apply Z.leb_le in E; rename E into Hb end.
+  destruct (Z_le_gt_dec (Z.abs (coord i x)) (rc_B ct)) as [L|L]; [exact L|]. exfalso.
+  set (a := Z.abs (coord i x)) in *.
+  assert (Ha : coord i x * coord i x = a * a) by (unfold a; lia).
+  assert (A1 : (rc_B ct + 1) * (rc_B ct + 1) <= a * a) by nia.
+  assert (A2 : rc_c ct * ((rc_B ct + 1) * (rc_B ct + 1)) <= rc_s ct * quad (g_G ge) x) by nia.
+  assert (A3 : rc_c ct * (rc_B ct + 1) * (rc_B ct + 1) * g_r2d ge <= rc_s ct * (quad (g_G ge) x * g_r2d ge)) by nia.
+  assert (A4 : rc_s ct * (quad (g_G ge) x * g_r2d ge) < rc_s ct * (g_r2n ge * g_sg ge * g_D ge * g_D ge)) by nia.
+  lia.
+Qed.
+
+Lemma coord_dvec i s0 s1 R :
+  coord i (dvec ge s0 s1 R) = g_D ge * coord i R + coord i (vsub (Uof ge s1) (Uof ge s0)).
+Proof.
+  unfold dvec. destruct (Uof ge s0) as [[a0 a1] a2], (Uof ge s1) as [[b0 b1] b2], R as [[x y] z].
+  destruct i as [|[|i]]; unfold coord, vadd, vscale, vsub; ring.
+Qed.
+
+Lemma rcert_width w i ct s0 s1 R :
+  0 < g_D ge -> 0 < g_r2d ge -> rcert_okb ge w i ct = true -> (s0 < nsites ge)%nat -> (s1 < nsites ge)%nat ->
+  nbrb ge s0 s1 R = true -> Z.abs (coord i R) <= coord i w.
+Proof.
+  intros HD Hd H Hs0 Hs1 Hn.
+  assert (Hq : quad (g_G ge) (dvec ge s0 s1 R) * g_r2d ge < g_r2n ge * g_sg ge * g_D ge * g_D ge).
+  { unfold nbrb, d2 in Hn. lia. }
+  pose proof (rcert_bound w i ct _ Hd H Hq) as HB. rewrite coord_dvec in HB.
+  unfold rcert_okb in H. apply andb_true_iff in H. destruct H as [_ H].
+  rewrite forallb_forall in H. specialize (H s0 (proj2 (in_seq _ _ _) (conj (Nat.le_0_l _) Hs0))).
+  rewrite forallb_forall in H. specialize (H s1 (proj2 (in_seq _ _ _) (conj (Nat.le_0_l _) Hs1))).
+  apply Z.ltb_lt in H.
+  set (du := coord i (vsub (Uof ge s1) (Uof ge s0))) in *. set (r := coord i R) in *. set (wi := coord i w) in *.
+  destruct (Z_le_gt_dec (Z.abs r) wi) as [L|L]; [exact L|]. exfalso.
+  assert (g_D ge * (wi + 1) <= Z.abs (g_D ge * r)) by (rewrite Z.abs_mul; nia).
+  lia.
+Qed.
+
+Lemma allowed_lt s : allowed ge s = true -> (s < nsites ge)%nat.
+Proof. unfold allowed. intro H. apply andb_true_iff in H. destruct H as [H _]. apply Nat.ltb_lt in H. exact H. Qed.
+
+(* a checked certificate set confines every neighbour vector to the box of half-widths w *)
+Theorem certs_box w certs s0 s1 R :
+  certs_okb ge w certs = true -> (s0 < nsites ge)%nat -> (s1 < nsites ge)%nat -> in_dim ge R ->
+  nbrb ge s0 s1 R = true -> in_boxw w R = true.
+Proof.
+  intros H Hs0 Hs1 Hdim Hn. unfold certs_okb in H.
+  repeat (apply andb_true_iff in H; destruct H as [H ?]).
+  assert (HD : 0 < g_D ge) by lia. assert (Hd : 0 < g_r2d ge) by lia.
+  match goal with E : rcert_okb ge w 0 _ = true |- _ => pose proof (rcert_width w 0 _ s0 s1 R HD Hd E Hs0 Hs1 Hn) as B0 end.
+  match goal with E : rcert_okb ge w 1 _ = true |- _ => pose proof (rcert_width w 1 _ s0 s1 R HD Hd E Hs0 Hs1 Hn) as B1 end.
+  assert (B2 : Z.abs (coord 2 R) <= coord 2 w).
+  { destruct (Nat.leb_spec 3 (g_dim ge)) as [L|L].
+    - match goal with E : rcert_okb ge w 2 _ = true |- _ => exact (rcert_width w 2 _ s0 s1 R HD Hd E Hs0 Hs1 Hn) end.
+    - destruct Hdim as [L'|Hz]; [lia|]. destruct R as [[x y] z], w as [[w0 w1] w2]. cbn [snd coord] in *. lia. }
+  destruct R as [[x y] z], w as [[w0 w1] w2]. unfold in_boxw. cbn [coord] in *. lia.
+Qed.
+
+Theorem range_okb_sound certs : range_okb ge certs = true -> range_ok ge.
+Proof.
+  intros H s0 s1 R H0 H1 Hd Hn. unfold in_boxb. eapply certs_box; try eassumption; apply allowed_lt; assumption.
+Qed.
+
+Theorem range_okb2_sound w certs : range_okb2 ge w certs = true -> range_ok ge.
+Proof.
+  unfold range_okb2. intro H. apply andb_true_iff in H. destruct H as [Hc Hf].
+  intros s0 s1 R H0 H1 Hd Hn. apply allowed_lt in H0. apply allowed_lt in H1.
+  pose proof (certs_box w certs s0 s1 R Hc H0 H1 Hd Hn) as Hb. apply in_boxlistw in Hb.
+  rewrite forallb_forall in Hf. specialize (Hf s0 (proj2 (in_seq _ _ _) (conj (Nat.le_0_l _) H0))).
+  rewrite forallb_forall in Hf. specialize (Hf s1 (proj2 (in_seq _ _ _) (conj (Nat.le_0_l _) H1))).
+  rewrite forallb_forall in Hf. specialize (Hf R Hb). rewrite Hn in Hf. cbn [negb orb] in Hf. exact Hf.
+Qed.
+
+(* the headline: on certified input the enumeration is exactly the set of cliques *)
+Corollary enum_exact certs k cl :
+  range_okb ge certs = true \/ (exists w, range_okb2 ge w certs = true) -> (1 <= k)%nat ->
+  (In cl (enumerate ge k) -> clique ge cl /\ length cl = k) /\
+  (clique ge cl -> length cl = k -> In (canon cl) (enumerate ge k)).
+Proof.
+  intros H Hk. split; [apply enum_sound|]. intros Hc Hl. apply enum_complete; try assumption.
+  destruct H as [H|[w H]]; [eapply range_okb_sound; exact H | eapply range_okb2_sound; exact H].
+Qed.
+
+(* ================================================================== Part 3: symmetry *)
+Lemma mulmv_add M a b : mulmv M (vadd a b) = vadd (mulmv M a) (mulmv M b).
+Proof.
+  destruct M as [[[[m00 m01] m02] [[m10 m11] m12]] [[m20 m21] m22]], a as [[a0 a1] a2], b as [[b0 b1] b2].
+  unfold mulmv, vadd, vdot. apply vec_ext; ring.
+Qed.
+
+Lemma mulmv_scale M k a : mulmv M (vscale k a) = vscale k (mulmv M a).
+Proof.
+  destruct M as [[[[m00 m01] m02] [[m10 m11] m12]] [[m20 m21] m22]], a as [[a0 a1] a2].
+  unfold mulmv, vscale, vdot. apply vec_ext; ring.
+Qed.
+
+Lemma quad_mtgm M G v : quad G (mulmv M v) = quad (mtgm M G) v.
+Proof.
+  destruct M as [[[[m00 m01] m02] [[m10 m11] m12]] [[m20 m21] m22]], G as [[[[[g11 g22] g33] g12] g13] g23], v as [[x y] z].
+  unfold quad, mtgm, mulmv, vdot. ring.
+Qed.
+
+Theorem gop_isometry g p q :
+  gop_okb ge g = true -> (p_site p < nsites ge)%nat -> (p_site q < nsites ge)%nat ->
+  (nbr ge (act_site g p) (act_site g q) <-> nbr ge p q) /\
+  allowed ge (p_site (act_site g p)) = allowed ge (p_site p).
+Proof.
+  intros H Hp Hq. unfold gop_okb in H.
+  apply andb_true_iff in H. destruct H as [H HU]. apply andb_true_iff in H. destruct H as [H HC].
+  apply andb_true_iff in H. destruct H as [EG _]. apply six_eqb_eq in EG.
+  rewrite forallb_forall in HU. specialize (HU _ (proj2 (in_seq _ _ _) (conj (Nat.le_0_l _) Hp))).
+  rewrite forallb_forall in HU. specialize (HU _ (proj2 (in_seq _ _ _) (conj (Nat.le_0_l _) Hq))).
+  rewrite forallb_forall in HC. pose proof (HC _ (proj2 (in_seq _ _ _) (conj (Nat.le_0_l _) Hp))) as HCp.
+  unfold act_site. destruct (nth (p_site p) (go_map g) (O, vzero)) as [p' dp] eqn:Ep.
+  destruct (nth (p_site q) (go_map g) (O, vzero)) as [q' dq] eqn:Eq.
+  apply veqb_eq in HU. apply andb_true_iff in HCp. destruct HCp as [HC1 HC2]. apply Nat.ltb_lt in HC1. apply Nat.eqb_eq in HC2.
+  split.
+  - unfold nbr, nbrb, d2. cbn [p_site p_R].
+    assert (Ed : dvec ge p' q' (vsub (vadd (mulmv (go_rot g) (p_R q)) dq) (vadd (mulmv (go_rot g) (p_R p)) dp))
+                 = mulmv (go_rot g) (dvec ge (p_site p) (p_site q) (vsub (p_R q) (p_R p)))).
+    { unfold dvec. rewrite mulmv_add, mulmv_scale, HU.
+      assert (EL : mulmv (go_rot g) (vsub (p_R q) (p_R p)) = vsub (mulmv (go_rot g) (p_R q)) (mulmv (go_rot g) (p_R p))).
+      { destruct (go_rot g) as [[[[m00 m01] m02] [[m10 m11] m12]] [[m20 m21] m22]], (p_R q) as [[a0 a1] a2], (p_R p) as [[b0 b1] b2].
+        unfold mulmv, vsub, vdot. apply vec_ext; ring. }
+      rewrite EL.
+      destruct (mulmv (go_rot g) (p_R q)) as [[a0 a1] a2], (mulmv (go_rot g) (p_R p)) as [[b0 b1] b2],
+        dq as [[c0 c1] c2], dp as [[d0 d1] d2], (Uof ge q') as [[e0 e1] e2], (Uof ge p') as [[f0 f1] f2].
+      unfold vadd, vsub, vscale. apply vec_ext; ring. }
+    rewrite Ed, quad_mtgm, EG. tauto.
+  - cbn [p_site]. unfold allowed. rewrite HC2. destruct (Nat.ltb_spec p' (nsites ge)); [|lia].
+    destruct (Nat.ltb_spec (p_site p) (nsites ge)); [|lia]. reflexivity.
+Qed.
+
+End RangeProofs.
+
+(* ---- orbit partition checker ---- *)
+Section OrbitProofs.
+Variable cn : clus -> clus.
+Variable ops : list gop.
+Variable extra : list (clus -> clus).
+
+Definition is_orbit (orb : list clus) : Prop :=
+  exists rep rest, orb = rep :: rest /\
+    (forall c g, In c orb -> In g ops -> In (act cn g c) orb) /\
+    (forall c f, In c orb -> In f extra -> In (f c) orb) /\
+    (forall c, In c orb -> exists g, In g ops /\ (act cn g rep = c \/ exists f, In f extra /\ act cn g (f rep) = c)).
+
+Theorem orbit_okb_sound orb : orbit_okb cn ops extra orb = true -> is_orbit orb.
+Proof.
+  unfold orbit_okb, is_orbit. destruct orb as [|rep rest]; [discriminate|]. intro H.
+  apply andb_true_iff in H. destruct H as [H1 H2]. exists rep, rest. split; [reflexivity|].
+  rewrite forallb_forall in H1, H2. split; [|split].
+  - intros c g Hc Hg. specialize (H1 c Hc). apply andb_true_iff in H1. destruct H1 as [H1 _].
+    rewrite forallb_forall in H1. apply cl_mem_In. apply H1. exact Hg.
+  - intros c f Hc Hf. specialize (H1 c Hc). apply andb_true_iff in H1. destruct H1 as [_ H1].
+    rewrite forallb_forall in H1. apply cl_mem_In. apply H1. exact Hf.
+  - intros c Hc. specialize (H2 c Hc). rewrite existsb_exists in H2. destruct H2 as [g [Hg H2]]. exists g. split; [exact Hg|].
+    apply orb_true_iff in H2. destruct H2 as [H2|H2].
+    + left. apply cl_eqb_eq. exact H2.
+    + right. rewrite existsb_exists in H2. destruct H2 as [f [Hf H2]]. exists f. split; [exact Hf | apply cl_eqb_eq; exact H2].
+Qed.
+
+Lemma nodupb_sound l : nodupb l = true -> NoDup l.
+Proof.
+  induction l as [|c l IH]; cbn [nodupb]; intro H; [constructor|]. apply andb_true_iff in H. destruct H as [H1 H2].
+  constructor; [|apply IH; exact H2]. intro Hin. apply cl_mem_In in Hin. rewrite Hin in H1. discriminate.
+Qed.
+
+Lemma disjointb_sound orbs : disjointb orbs = true -> ForallOrdPairs (fun o o' => forall c, In c o -> ~ In c o') orbs.
+Proof.
+  induction orbs as [|o rest IH]; cbn [disjointb]; intro H; [constructor|]. apply andb_true_iff in H. destruct H as [H1 H2].
+  constructor; [|apply IH; exact H2]. rewrite Forall_forall. intros o' Ho' c Hc Hc'.
+  rewrite forallb_forall in H1. specialize (H1 c Hc). rewrite forallb_forall in H1. specialize (H1 o' Ho').
+  apply cl_mem_In in Hc'. rewrite Hc' in H1. discriminate.
+Qed.
+
+Theorem partition_okb_sound orbs : partition_okb cn ops extra orbs = true ->
+  (forall o, In o orbs -> is_orbit o /\ NoDup o) /\ ForallOrdPairs (fun o o' => forall c, In c o -> ~ In c o') orbs.
+Proof.
+  unfold partition_okb. intro H. apply andb_true_iff in H. destruct H as [H H3]. apply andb_true_iff in H. destruct H as [H1 H2].
+  split; [|apply disjointb_sound; exact H3]. intros o Ho. rewrite forallb_forall in H1, H2.
+  split; [apply orbit_okb_sound; apply H1; exact Ho | apply nodupb_sound; apply H2; exact Ho].
+Qed.
+
+Lemma set_eqb_sound a b : set_eqb a b = true -> forall c, In c a <-> In c b.
+Proof.
+  unfold set_eqb. intro H. apply andb_true_iff in H. destruct H as [H1 H2]. rewrite forallb_forall in H1, H2.
+  intro c. split; intro Hc; apply cl_mem_In; [apply H1 | apply H2]; exact Hc.
+Qed.
+End OrbitProofs.
+
+(* without extra generators an accepted orbit is exactly { g.rep : g in ops } *)
+Corollary orbit_exact cn ops orb : orbit_okb cn ops [] orb = true ->
+  exists rep, forall c, In c orb <-> exists g, In g ops /\ act cn g rep = c.
+Proof.
+  intro H. apply orbit_okb_sound in H. destruct H as (rep & rest & -> & H1 & _ & H3). exists rep. intro c. split.
+  - intro Hc. destruct (H3 c Hc) as [g [Hg [E|[f [[] _]]]]]. exists g. split; assumption.
+  - intros [g [Hg <-]]. apply H1; [left; reflexivity | exact Hg].
+Qed.
+
+(* ================================================================== Part 5: the Cluster value type *)
+Lemma vsum_perm l l' : Permutation l l' -> vsum l = vsum l'.
+Proof.
+  induction 1 as [| x l l' _ IH | x y l | l l' l'' _ IH1 _ IH2]; cbn [vsum fold_right].
+  - reflexivity.
+  - fold (vsum l) (vsum l'). rewrite IH. reflexivity.
+  - fold (vsum l). destruct x as [[x0 x1] x2], y as [[y0 y1] y2], (vsum l) as [[s0 s1] s2]. unfold vadd. apply vec_ext; lia.
+  - rewrite IH1. exact IH2.
+Qed.
+
+Lemma vsum_shift T l : vsum (map p_R (map (shift T) l)) = vadd (vsum (map p_R l)) (vscale (Z.of_nat (length l)) T).
+Proof.
+  induction l as [|p l IH]; cbn [map vsum fold_right length].
+  - destruct T as [[t0 t1] t2]. unfold vadd, vscale, vzero. apply vec_ext; lia.
+  - fold (vsum (map p_R (map (shift T) l))) (vsum (map p_R l)). rewrite IH. unfold shift. cbn [p_R].
+    destruct (p_R p) as [[x y] z], T as [[t0 t1] t2], (vsum (map p_R l)) as [[s0 s1] s2].
+    unfold vadd, vscale. apply vec_ext; lia.
+Qed.
+
+Lemma keys_from_shift k T N c : forall l i,
+  keys_from k i N (vadd c (vscale N T)) (map (shift T) l) = keys_from k i N c l.
+Proof.
+  induction l as [|p l IH]; intro i; cbn [map keys_from]; [reflexivity|]. rewrite IH. f_equal. f_equal.
+  unfold shift. cbn [p_site p_R]. destruct (p_R p) as [[x y] z], T as [[t0 t1] t2], c as [[c0 c1] c2].
+  unfold vsub, vscale, vadd. apply vec_ext; ring.
+Qed.
+
+Lemma ckeys_shift k T l : ckeys k (map (shift T) l) = ckeys k l.
+Proof. unfold ckeys. rewrite map_length, vsum_shift. apply keys_from_shift. Qed.
+
+Lemma sinsert_perm p l : Permutation (sinsert p l) (p :: l).
+Proof.
+  induction l as [|q l IH]; cbn [sinsert]; [apply Permutation_refl|].
+  destruct (Nat.leb (p_site p) (p_site q)); [apply Permutation_refl|].
+  eapply Permutation_trans; [apply perm_skip; exact IH | apply perm_swap].
+Qed.
+
+Lemma ssort_perm l : Permutation (ssort l) l.
+Proof.
+  induction l as [|p l IH]; cbn [ssort]; [apply Permutation_refl|].
+  eapply Permutation_trans; [apply sinsert_perm | apply perm_skip; exact IH].
+Qed.
+
+Lemma sinsert_shift T p l : sinsert (shift T p) (map (shift T) l) = map (shift T) (sinsert p l).
+Proof.
+  induction l as [|q l IH]; cbn [sinsert map]; [reflexivity|]. rewrite !site_shift.
+  destruct (Nat.leb (p_site p) (p_site q)); cbn [map]; [reflexivity | rewrite IH; reflexivity].
+Qed.
+
+Lemma ssort_shift T l : ssort (map (shift T) l) = map (shift T) (ssort l).
+Proof. induction l as [|p l IH]; cbn [ssort map]; [reflexivity|]. rewrite IH. apply sinsert_shift. Qed.
+
+(* Cluster.__init__ gives literally the same object for a translated site list *)
+Theorem Cluster_translate k T l : Cluster k (map (shift T) l) = Cluster k l.
+Proof.
+  unfold Cluster, mk_sites. f_equal. rewrite firstn_map, skipn_map, ssort_shift, <- map_app.
+  destruct (firstn (nspecial k) l ++ ssort (skipn (nspecial k) l)) as [|h t]; [reflexivity|].
+  assert (EV : vadd T (vneg (p_R (shift T h))) = vneg (p_R h)).
+  { destruct h as [s [[x y] z]], T as [[t0 t1] t2]. unfold shift, vadd, vneg. cbn [p_site p_R]. apply vec_ext; lia. }
+  cbn [map]. rewrite shift_shift, map_shift_shift, EV. reflexivity.
+Qed.
+
+Lemma ckey_eqb_refl x : ckey_eqb x x = true.
+Proof. destruct x as [[t s] v]. unfold ckey_eqb. rewrite !Nat.eqb_refl, veqb_refl. reflexivity. Qed.
+
+Lemma key_subset_incl a b : (forall x, In x a -> In x b) -> key_subset a b = true.
+Proof.
+  intro H. unfold key_subset. apply forallb_forall. intros x Hx. apply existsb_exists. exists x.
+  split; [apply H; exact Hx | apply ckey_eqb_refl].
+Qed.
+
+Lemma shift_neg_origin p x : p_R p = vzero -> shift (vneg (p_R p)) x = x.
+Proof. intros ->. replace (vneg vzero) with vzero by reflexivity. apply shift_zero. Qed.
+
+Lemma mk_sites_head k l h t : mk_sites k l = h :: t -> p_R h = vzero.
+Proof.
+  unfold mk_sites. destruct (firstn (nspecial k) l ++ ssort (skipn (nspecial k) l)) as [|h0 t0]; [discriminate|].
+  cbn [map]. intro E. injection E as <- _. unfold shift. cbn [p_R]. apply vadd_neg.
+Qed.
+
+Lemma mk_sites_length k l : length (mk_sites k l) = length l.
+Proof.
+  unfold mk_sites.
+  assert (E : length (firstn (nspecial k) l ++ ssort (skipn (nspecial k) l)) = length l).
+  { rewrite app_length, (Permutation_length (ssort_perm _)), <- app_length, firstn_skipn. reflexivity. }
+  destruct (firstn (nspecial k) l ++ ssort (skipn (nspecial k) l)) as [|h t]; [exact E|]. rewrite map_length. exact E.
+Qed.
+
+(* the transition pair of a constructed cluster is recognised by the cluster itself *)
+Lemma istransition_self k l a b t : mk_sites k l = a :: b :: t -> istransition (Cluster k l) a b = true.
+Proof.
+  intro E. unfold istransition, Cluster. cbn [c_sites c_kind]. rewrite E.
+  pose proof (mk_sites_head k l a (b :: t) E) as Hz. rewrite !(shift_neg_origin a) by exact Hz.
+  rewrite !peqb_refl. reflexivity.
+Qed.
+
+Theorem ceq_refl k l : (nspecial k <= length l)%nat -> ceq (Cluster k l) (Cluster k l) = true.
+Proof.
+  intro Hl. unfold ceq. cbn [c_kind c_sites Cluster].
+  assert (Ek : ckind_eqb k k = true) by (destruct k; reflexivity). rewrite Ek, Nat.eqb_refl.
+  rewrite !key_subset_incl by (intros x Hx; exact Hx). cbn [andb].
+  destruct (is_ts k) eqn:Ets; [|reflexivity].
+  assert (H2 : (2 <= length (mk_sites k l))%nat) by (rewrite mk_sites_length; destruct k; cbn [nspecial] in Hl; try discriminate; lia).
+  remember (mk_sites k l) as ms eqn:E. destruct ms as [|a [|b t]]; cbn [length] in H2; try lia.
+  symmetry in E. exact (istransition_self k l a b t E).
+Qed.
+
+Theorem Cluster_eq_translate k T l : (nspecial k <= length l)%nat -> ceq (Cluster k l) (Cluster k (map (shift T) l)) = true.
+Proof. intro H. rewrite Cluster_translate. apply ceq_refl. exact H. Qed.
+
+(* ---- reordering of the non-special sites ---- *)
+Lemma tag_zero k i : (nspecial k <= i)%nat -> tag k i = O.
+Proof. destruct k; cbn [nspecial tag]; intro H; try reflexivity; destruct i as [|[|i]]; try reflexivity; lia. Qed.
+
+Lemma keys_from_app k N c l1 : forall i l2,
+  keys_from k i N c (l1 ++ l2) = keys_from k i N c l1 ++ keys_from k (i + length l1) N c l2.
+Proof.
+  induction l1 as [|p l1 IH]; intros i l2; cbn [app keys_from length].
+  - rewrite Nat.add_0_r. reflexivity.
+  - rewrite IH. rewrite <- Nat.add_succ_comm. reflexivity.
+Qed.
+
+Lemma keys_from_plain k N c : forall l i, (nspecial k <= i)%nat ->
+  keys_from k i N c l = map (fun p => (O, p_site p, vsub (vscale N (p_R p)) c)) l.
+Proof.
+  induction l as [|p l IH]; intros i Hi; cbn [keys_from map]; [reflexivity|].
+  rewrite tag_zero by exact Hi. rewrite IH by lia. reflexivity.
+Qed.
+
+Lemma ckeys_perm k sp r r' : length sp = nspecial k -> Permutation r r' ->
+  Permutation (ckeys k (sp ++ r)) (ckeys k (sp ++ r')).
+Proof.
+  intros Hs P. unfold ckeys. rewrite !keys_from_app. cbn [Nat.add].
+  rewrite !(keys_from_plain k _ _ _ (length sp)) by lia.
+  assert (EN : length (sp ++ r) = length (sp ++ r')) by (rewrite !app_length, (Permutation_length P); reflexivity).
+  assert (EC : vsum (map p_R (sp ++ r)) = vsum (map p_R (sp ++ r')))
+    by (apply vsum_perm, Permutation_map, Permutation_app_head; exact P).
+  rewrite EN, EC. apply Permutation_app_head. apply Permutation_map. exact P.
+Qed.
+
+Lemma mk_sites_split k sp r : length sp = nspecial k ->
+  exists T, mk_sites k (sp ++ r) = map (shift T) (sp ++ ssort r).
+Proof.
+  intro Hs. unfold mk_sites. rewrite <- Hs, firstn_app, Nat.sub_diag, firstn_all, skipn_app, Nat.sub_diag, skipn_all.
+  cbn [firstn skipn app]. rewrite app_nil_r.
+  destruct (sp ++ ssort r) as [|h t]; [exists vzero; reflexivity | exists (vneg (p_R h)); reflexivity].
+Qed.
+
+Lemma ckeys_mk_perm k sp r r' : length sp = nspecial k -> Permutation r r' ->
+  Permutation (ckeys k (mk_sites k (sp ++ r))) (ckeys k (mk_sites k (sp ++ r'))).
+Proof.
+  intros Hs P. destruct (mk_sites_split k sp r Hs) as [T ->], (mk_sites_split k sp r' Hs) as [T' ->].
+  rewrite !ckeys_shift. apply ckeys_perm; [exact Hs|].
+  eapply Permutation_trans; [apply ssort_perm|]. eapply Permutation_trans; [exact P | apply Permutation_sym, ssort_perm].
+Qed.
+
+(* the first nspecial sites of the constructed cluster do not depend on the order of the rest *)
+Lemma mk_sites_special_ts k a b r r' : nspecial k = 2%nat -> Permutation r r' ->
+  exists a' b' t t', mk_sites k (a :: b :: r) = a' :: b' :: t /\ mk_sites k (a :: b :: r') = a' :: b' :: t'.
+Proof.
+  intros Hk P. unfold mk_sites. rewrite Hk. cbn [firstn skipn app map].
+  eexists _, _, _, _. split; reflexivity.
+Qed.
+
+Theorem Cluster_eq_reorder k sp r r' :
+  length sp = nspecial k -> Permutation r r' -> ceq (Cluster k (sp ++ r)) (Cluster k (sp ++ r')) = true.
+Proof.
+  intros Hs P. unfold ceq. cbn [c_kind c_sites Cluster].
+  assert (Ek : ckind_eqb k k = true) by (destruct k; reflexivity). rewrite Ek.
+  rewrite !mk_sites_length, !app_length, (Permutation_length P), Nat.eqb_refl.
+  pose proof (ckeys_mk_perm k sp r r' Hs P) as PK.
+  rewrite (key_subset_incl _ _ (fun x Hx => Permutation_in x PK Hx)).
+  rewrite (key_subset_incl _ _ (fun x Hx => Permutation_in x (Permutation_sym PK) Hx)). cbn [andb].
+  destruct (is_ts k) eqn:Ets; [|reflexivity].
+  assert (Hk : nspecial k = 2%nat) by (destruct k; try discriminate; reflexivity).
+  destruct sp as [|a [|b [|c sp]]]; cbn [length] in Hs; try lia. cbn [app].
+  destruct (mk_sites_special_ts k a b r r' Hk P) as (a' & b' & t & t' & E1 & E2). rewrite E2.
+  apply (istransition_self k (a :: b :: r) a' b' t E1).
+Qed.
+
+Section HashProofs.
+Variable A : Type.
+Variable op : A -> A -> A.
+Variable e : A.
+Variable H : ckey -> A.
+Hypothesis op_comm : forall x y, op x y = op y x.
+Hypothesis op_assoc : forall x y z, op (op x y) z = op x (op y z).
+
+Lemma fold_hash_perm l l' : Permutation l l' -> forall h, fold_left (fun h k => op h (H k)) l h = fold_left (fun h k => op h (H k)) l' h.
+Proof.
+  induction 1 as [| x l l' _ IH | x y l | l l' l'' _ IH1 _ IH2]; intro h; cbn [fold_left].
+  - reflexivity.
+  - apply IH.
+  - f_equal. rewrite !op_assoc. f_equal. apply op_comm.
+  - rewrite IH1. apply IH2.
+Qed.
+
+Theorem Cluster_hash_translate k T l : chash A op e H (Cluster k (map (shift T) l)) = chash A op e H (Cluster k l).
+Proof. rewrite Cluster_translate. reflexivity. Qed.
+
+Theorem Cluster_hash_reorder k sp r r' :
+  length sp = nspecial k -> Permutation r r' ->
+  chash A op e H (Cluster k (sp ++ r)) = chash A op e H (Cluster k (sp ++ r')).
+Proof. intros Hs P. unfold chash. cbn [c_kind c_sites Cluster]. apply fold_hash_perm. apply ckeys_mk_perm; assumption. Qed.
+End HashProofs.
+
+(* ================================================================== refutation and non-vacuity *)
+(* The code's search box  round(cutoff/|a_i|) + 1  is NOT always sufficient: hexagonal 2-D lattice
+   (metric [[1,-1/2],[-1/2,1]]), two atoms at (3/8,1/4) and (5/8,3/4), cutoff 6.4975.  The pair
+   {atom 0 at 0, atom 1 at (-4,-8)} is within the cutoff, but |R_2| = 8 > 7 = round(6.4975)+1, and the
+   model of makeclusters (like the implementation) does not list it. *)
+Module Witness.
+Definition ge : geom :=
+  mkGeom 2 (2, 2, 2, -1, 0, 0) 2 8 [(3, 2, 0); (5, 6, 0)] [O; O] [] 6754801 160000.
+Definition cl : clus := [mkP 0 (0, 0, 0); mkP 1 (-4, -8, 0)].
+
+Lemma witness_clique : clique ge cl.
+Proof.
+  split; [|split].
+  - constructor; [intros [E|[]]; discriminate | constructor; [intros [] | constructor]].
+  - intros p [<-|[<-|[]]]; (split; [vm_compute; reflexivity | right; reflexivity]).
+  - intros p q [<-|[<-|[]]] [<-|[<-|[]]] Hne; try contradiction; vm_compute; reflexivity.
+Qed.
+
+Lemma witness_missing : ~ In (canon cl) (enumerate ge 2).
+Proof.
+  intro H. apply cl_mem_In in H. revert H. vm_compute. discriminate.
+Qed.
+End Witness.
+
+Theorem makeclusters_box_refuted :
+  exists (ge : geom) (cl : clus), clique ge cl /\ length cl = 2%nat /\ ~ In (canon cl) (enumerate ge 2) /\ ~ range_ok ge.
+Proof.
+  exists Witness.ge, Witness.cl. split; [exact Witness.witness_clique|]. split; [reflexivity|].
+  split; [exact Witness.witness_missing|]. intro Hr. apply Witness.witness_missing.
+  apply (enum_complete Witness.ge Hr 2 Witness.cl Witness.witness_clique); [reflexivity | lia].
+Qed.
+
+(* non-vacuity: square lattice, one atom, cutoff 3/2: the box is certified, there are two pair
+   classes per order ... and triangles exist *)
+Module Example.
+Definition ge : geom := mkGeom 2 (1, 1, 1, 0, 0, 0) 1 1 [(0, 0, 0)] [O] [] 9 4.
+Definition certs : list rcert :=
+  [mkCert 1 1 [(1, (0, 1, 0)); (1, (0, 0, 1))] 1; mkCert 1 1 [(1, (1, 0, 0)); (1, (0, 0, 1))] 1;
+   mkCert 1 1 [(1, (1, 0, 0)); (1, (0, 1, 0))] 1].
+Example ex_range : range_okb ge certs = true /\ range_okb2 ge (1, 1, 0) certs = true.
+Proof. vm_compute. split; reflexivity. Qed.
+Example ex_counts : length (enumerate ge 1) = 1%nat /\ length (enumerate ge 2) = 4%nat /\ length (enumerate ge 3) = 4%nat
+                    /\ enumerate ge 5 = [].
+Proof. vm_compute. repeat split; reflexivity. Qed.
+Example ex_complete : In (canon [mkP 0 (5, 5, 0); mkP 0 (6, 6, 0); mkP 0 (5, 6, 0)]) (enumerate ge 3).
+Proof. vm_compute. tauto. Qed.
+(* identity of 4-fold rotation: a symmetry of the model crystal; orbit of the nearest-neighbour pair *)
+Definition rot4 : gop := mkGop ((0, -1, 0), (1, 0, 0), (0, 0, 1)) [(O, (0, 0, 0))].
+Definition ident : gop := mkGop ((1, 0, 0), (0, 1, 0), (0, 0, 1)) [(O, (0, 0, 0))].
+Example ex_sym : gop_okb ge rot4 = true /\
+  partition_okb canon [ident; rot4] [] [[ [mkP 0 (0,0,0); mkP 0 (0,1,0)]; [mkP 0 (0,0,0); mkP 0 (1,0,0)] ]] = true.
+Proof. vm_compute. split; reflexivity. Qed.
+(* the value type: a vacancy cluster, reordered and translated, is equal; a different one is not *)
+Example ex_value :
+  ceq (Cluster Vac [mkP 0 (0,0,0); mkP 0 (1,0,0); mkP 0 (0,1,0)]) (Cluster Vac [mkP 0 (3,3,0); mkP 0 (3,4,0); mkP 0 (4,3,0)]) = true /\
+  ceq (Cluster Vac [mkP 0 (0,0,0); mkP 0 (1,0,0); mkP 0 (0,1,0)]) (Cluster Vac [mkP 0 (1,0,0); mkP 0 (0,0,0); mkP 0 (0,1,0)]) = false /\
+  ceq (Cluster TS [mkP 0 (0,0,0); mkP 0 (1,0,0); mkP 0 (0,1,0)]) (Cluster TS [mkP 0 (1,0,0); mkP 0 (0,0,0); mkP 0 (0,1,0)]) = true.
+Proof. vm_compute. repeat split; reflexivity. Qed.
+End Example.
